@@ -85,6 +85,10 @@ def universe():
     # cells that are equal without being the same bits: 0.0 and -0.0, NaNs of another bit pattern
     u += [A('float64', [0.0, 1.0]), A('float64', [-0.0, 1.0]), A('float64', [1.0, {'$nan': 'neg'}]), A('float64', [1.0, {'$nan': 'np'}]), {'$ts': [IDX, [0.0, -0.0, {'$nan': 'neg'}]]}, {'$ts': [IDX, [-0.0, 0.0, {'$nan': 'np'}]]},
           [0.0], [-0.0], {'$nan': 'neg'}, [{'$nan': 'neg'}]]
+    # arrays / series long enough for any size-dependent path (block-wise or hashed comparisons): equal copies and ones differing in one late cell
+    L = list(range(70))
+    u += [A('int64', L), A('int64', L[:-1] + [700]), A('float64', [float(v) for v in L]), A('float64', [float(v) for v in L[:-1]] + [nan(50)]), A('float64', [float(v) for v in L[:-1]] + [nan(51)]),
+          {'$sr': [L, [float(v) for v in L], 'float64']}, {'$sr': [L, [float(v) for v in L[:-1]] + [69.5], 'float64']}, L, L[:-1] + [700], {str(v): v for v in L}]
     # one decimal fraction at two precisions next to the python float
     u += [{'$np': ['float32', 0.1]}, 0.1, {'$np': ['float64', 0.1]}, [{'$np': ['float32', 0.1]}], [0.1]]
     NAT, NATD, NATT = {'$np': ['datetime64[ns]', 'NaT']}, {'$np': ['datetime64[D]', 'NaT']}, {'$np': ['timedelta64[s]', 'NaT']}
